@@ -539,6 +539,17 @@ def r5(report, db, cg, M):
         for c in (n.calls() if n.ast is not None else []):
             if isinstance(c.func, ast.Attribute) and \
                     c.func.attr == 'shutdown':
+                how = ast.unparse(c.args[0]) if c.args else None
+                if how is not None and how.split('.')[-1] in ('SHUT_RDWR',):
+                    report.ok(R, 'shutdown(%s): a thread blocked in a read '
+                              'is woken' % how)
+                else:
+                    report.violation(R, 'teardown:shutdown-how', dc.path, c,
+                                     dc.qualname, 'shutdown(%s) does not '
+                                     'shut the read direction: a networking '
+                                     'thread blocked inside a read on this '
+                                     'socket is not woken by close() and '
+                                     'never terminates' % how)
                 hs = [s for s, l in n.succ if l == 'exc'
                       and s.kind == 'handler']
                 if hs:
